@@ -262,7 +262,7 @@ theorem c07f_parseQuantity_nopct (pre lk vt : List Tok) (s : BP α)
       refine Sat.bind (Sat.mono (consumeWhile_at (fun k => k != .word) h3 [] [] hd'
         (by intro t ht; cases ht) (by intro b hb; simp at hb)) ?_)
       rintro _ s4 ⟨rfl, h4⟩
-      simp only [List.getLast?_nil]
+      simp only [List.reverse_nil, List.find?_nil]
       exact Sat.pure ⟨trivial, h4.1, rfl, h4.2.2⟩
     · exact Sat.pure ⟨rfl, hat⟩
   · rintro adv s1 ⟨rfl, h1⟩
